@@ -344,7 +344,11 @@ P("C19", module="AJ.Props.C19All", extra=[("AJ.Props.C19", ["C19"]), ("AJ.Props.
                        S.JsonDocSuite(cfg=G["id1c10"], n=300 if tier == "quick" else 30000), S.MpDocSuite(cfg=G["tiny2"], n=300 if tier == "quick" else 30000), S.JsonDocSuite(cfg=G["len1"], n=200 if tier == "quick" else 20000)] +
   ([S.HistSuite(cfg=G[g], nh=1500) for g in ("tiny2", "len4", "id1")] if tier == "thorough" else []))
 
-P("C20", level_text="Theorems: (1) the inventory of every object with static storage duration defined by ArduinoJson code — regenerated on every run from the object code of a "
+P("C20", module="AJ.Props.C20All", extra=[("AJ.Props.C20", ["C20"]), ("AJ.Props.C20Hist", ["C20"])], level_text="On the API model itself (the history interpreter over three documents and ten references that the correspondence ties to the library, lean/AJ/Props/C20Hist.lean): "
+  "C20.step_frame / step_reads_only_footprint - every one of 36 typed commands leaves all documents outside its target and all references it does not rebind literally unchanged, and its output and effect depend only on the documents it reads and the references it uses; "
+  "ops_on_distinct_documents_commute - two commands with disjoint footprints commute (same world, same outputs); interleaving_of_document_histories - for two histories confined to disjoint sets of documents and references, with a third region only read, "
+  "EVERY schedule ends in the world of the sequential run and gives each history its solo outputs; shared_const_source - readers of a shared document commute; copydoc_not_local - the one command that is global in the model (it flushes all allocator logs) is identified and proved not local. "
+  "Theorems: (1) the inventory of every object with static storage duration defined by ArduinoJson code — regenerated on every run from the object code of a "
   "translation unit that instantiates the public API — contains only read-only objects and two justified allow-listed ones (the stateless default allocator, the table of error strings); "
   "(2) for any step function without hidden state, every interleaving of per-thread operation lists over distinct documents gives each thread exactly the result of its sequential run. "
   "A function-level static buffer or cache introduced by a change appears in the regenerated inventory and breaks (1). The thread harness runs 8 threads on distinct documents with a "
